@@ -155,10 +155,18 @@ FLAVORS = {
 }
 
 
+COVERAGE = bool(os.environ.get("VERIF_COVERAGE"))
+
+
 def cargo_build(flavor):
     fl = FLAVORS[flavor]
     tdir = os.path.join(BUILD, fl["target"])
     env = dict(ENV)
+    if COVERAGE:
+        # tools/coverage.py: same harness, instrumented (own target directory, nightly's llvm-tools read the profiles)
+        tdir = os.path.join(BUILD, "cov-" + fl["target"])
+        env["RUSTFLAGS"] = "--cfg cstree_verif -C instrument-coverage"
+        env["RUSTUP_TOOLCHAIN"] = "nightly"
     env["CARGO_TARGET_DIR"] = tdir
     with Lock("cargo-" + fl["target"]):
         # the lock file of the repository pins the versions available offline
